@@ -48,6 +48,10 @@ pub struct Shared {
     pub dropped: bool,
     /// how many bytes one `poll_write` accepts (0: all of them)
     pub wcap: usize,
+    /// write back-pressure: `Some(k)` = the transport accepts k more bytes and then returns Pending
+    /// until unblocked (action `U`); `None` = no back-pressure
+    pub wblock: Option<usize>,
+    pub wwaker: Option<Waker>,
 }
 
 /// the transport's write acceptance is part of the schedule: it is derived from the schedule's seed
@@ -89,12 +93,20 @@ impl AsyncRead for SimIo {
 }
 
 impl AsyncWrite for SimIo {
-    fn poll_write(self: Pin<&mut Self>, _: &mut Context<'_>, b: &[u8]) -> Poll<io::Result<usize>> {
+    fn poll_write(self: Pin<&mut Self>, cx: &mut Context<'_>, b: &[u8]) -> Poll<io::Result<usize>> {
         let mut s = self.0.lock().unwrap();
         if let Some(k) = s.werr {
             return Poll::Ready(Err(io::Error::new(IO_KINDS[k], "scripted write fault")));
         }
-        let n = if s.wcap == 0 { b.len() } else { b.len().min(s.wcap) };
+        let mut n = if s.wcap == 0 { b.len() } else { b.len().min(s.wcap) };
+        if let Some(left) = s.wblock {
+            if left == 0 && !b.is_empty() {
+                s.wwaker = Some(cx.waker().clone());
+                return Poll::Pending;
+            }
+            n = n.min(left);
+            s.wblock = Some(left - n);
+        }
         s.written.extend_from_slice(&b[..n]);
         Poll::Ready(Ok(n))
     }
@@ -336,6 +348,20 @@ impl World {
             "w" => {
                 self.sh.lock().unwrap().werr = Some(rest.parse().unwrap());
             }
+            // write back-pressure: B<k> = accept k more bytes, then Pending; U = unblock
+            "B" => {
+                self.sh.lock().unwrap().wblock = Some(rest.parse().unwrap());
+            }
+            "U" => {
+                let w = {
+                    let mut s = self.sh.lock().unwrap();
+                    s.wblock = None;
+                    s.wwaker.take()
+                };
+                if let Some(w) = w {
+                    w.wake();
+                }
+            }
             _ => panic!("bad action {a}"),
         }
         // quiesce
@@ -459,7 +485,7 @@ pub fn run_schedule(pw: Option<String>, actions: &[String], seed: u64) -> String
 
 pub fn exec(op: &[&str]) -> String {
     match op[0] {
-        o if o.starts_with("loop.") => {
+        o if o.starts_with("loop.") || o.starts_with("loopx.") => {
             let pwt = op[1].strip_prefix('L').unwrap_or(op[1]);
             let pw = if pwt == "~" { None } else { Some(String::from_utf8(unhex(pwt)).unwrap()) };
             let actions: Vec<String> = if op.len() < 3 || op[2] == "-" { vec![] } else { op[2].split(',').map(|s| s.to_string()).collect() };
@@ -771,7 +797,7 @@ pub struct GenCfg {
 }
 
 /// one schedule, generated online; returns the op line
-pub fn gen_schedule(r: &mut Rng, g: &GenCfg, steps: usize, prop: &str) -> String {
+pub fn gen_schedule(r: &mut Rng, g: &GenCfg, steps: usize, prop: &str, backpressure: bool) -> String {
     let sel_seed = r.next() % 1_000_000;
     let rt = runtime(sel_seed);
     rt.block_on(async {
@@ -853,8 +879,22 @@ pub fn gen_schedule(r: &mut Rng, g: &GenCfg, steps: usize, prop: &str) -> String
                 faulted = true;
             }
         }
+        let mut blocked = false;
         for _ in 0..steps {
             let connected = w.connected();
+            // write back-pressure (schedules `loopx`, judged by the oracle only)
+            if backpressure && connected && !faulted {
+                if !blocked && r.chance(1, 6) {
+                    blocked = true;
+                    let k = *r.pick(&[0usize, 1, 2, 3, 5, 7, 12, 30]);
+                    do_act(&mut w, &mut sv, &mut actions, format!("B{k}")).await;
+                    continue;
+                } else if blocked && r.chance(1, 3) {
+                    blocked = false;
+                    do_act(&mut w, &mut sv, &mut actions, "U".to_string()).await;
+                    continue;
+                }
+            }
             let a = r.below(if faulted { 9 } else if g.faults || g.wfaults { 14 } else { 12 });
             match a {
                 // requests
@@ -977,6 +1017,9 @@ pub fn gen_schedule(r: &mut Rng, g: &GenCfg, steps: usize, prop: &str) -> String
                 _ => {}
             }
         }
+        if blocked {
+            do_act(&mut w, &mut sv, &mut actions, "U".to_string()).await;
+        }
         // drain: deliver everything, let timers fire, until two rounds in a row delivered nothing,
         // so that fault-free schedules end quiescent with every request answered
         let mut empty_rounds = 0;
@@ -993,7 +1036,7 @@ pub fn gen_schedule(r: &mut Rng, g: &GenCfg, steps: usize, prop: &str) -> String
                 break;
             }
         }
-        format!("loop.{}.{} {} {}", prop, sel_seed, pw.map(|p| format!("{}{}", if locked0 { "L" } else { "" }, if p.is_empty() { "-".to_string() } else { hex(p.as_bytes()) })).unwrap_or("~".into()), actions.join(","))
+        format!("{}.{}.{} {} {}", if backpressure { "loopx" } else { "loop" }, prop, sel_seed, pw.map(|p| format!("{}{}", if locked0 { "L" } else { "" }, if p.is_empty() { "-".to_string() } else { hex(p.as_bytes()) })).unwrap_or("~".into()), actions.join(","))
     })
 }
 
@@ -1024,7 +1067,12 @@ pub fn gen(cfg: &Cfg) -> Vec<String> {
                 }
             }
         };
-        ops.push(gen_schedule(&mut r, &g, steps, &cfg.prop));
+        ops.push(gen_schedule(&mut r, &g, steps, &cfg.prop, false));
+        // the same kind of schedule over a transport with write back-pressure (C01, C05, C13: the
+        // properties about what is written and who is answered); oracle-only, see Driver/Loop.lean
+        if matches!(cfg.prop.as_str(), "C01" | "C05" | "C13") && i % 5 == 0 {
+            ops.push(gen_schedule(&mut r, &g, steps, &cfg.prop, true));
+        }
     }
     ops
 }
